@@ -2,7 +2,7 @@
 contracts on the real handlers of BptkServer and the lock functions of bptk."""
 from .server_classes import *  # noqa
 from . import c17_timeouts as c17
-from .c17_timeouts import wf_im
+from .c17_timeouts import wf_im, expiry, uuid_ok
 
 F = F_SRV
 RESP = TRef('Response')
@@ -11,9 +11,10 @@ REQ_V = SV(TRef('Request'), REQ)
 SRV_GLOBALS = {'request': REQ_V}
 
 CONTENT = TRec('content', {'settings': ANY, 'numberSteps': INT, 'flatResults': BOOL, 'timeout': TIMEOUT, 'instances': INT,
-                           'scenario_managers': ANY, 'scenarios': ANY, 'equations': ANY, 'agents': ANY})
+                           'scenario_managers': ANY, 'scenarios': ANY, 'equations': ANY, 'agents': ANY, 'agent_states': ANY,
+                           'agent_properties': ANY, 'agent_property_types': ANY, 'individual_agent_properties': ANY})
 
-GH = dict(GHOST_SRV, entered=BOOL, steps_run=INT, yields=INT)
+GH = dict(GHOST_SRV, entered=BOOL, steps_run=INT, yields=INT, **GH_SAVE)
 
 RESP_FIELDS = ['Response.status', 'Response.headers', 'Response.body']
 
@@ -164,11 +165,12 @@ contract('BptkServer._ensure_instance_exists', trusted=True, props=['C18', 'C17'
                                FA('ref', lambda r: Implies(z3.Select(C.old_st.alloc, r),
                                                            C.st.heap_arr_cf('bptk', 'session_state')[r] == C.old_st.heap_arr_cf('bptk', 'session_state')[r]))))
 
-contract('Adapter.save_instance', trusted=True, props=['C18', 'C19'], params=dict(self=TRef('Adapter'), state=TRef('InstanceState')),
+SAVE_LENIENT = contract('Adapter.save_instance', trusted=True, props=['C18', 'C19', 'C16'], params=dict(self=TRef('Adapter'), state=TRef('InstanceState')),
          note='external state adapter (contracted under C19); may raise on I/O errors', raises={'Exception': lambda C: True})
-contract('InstanceManager._get_instance_state', trusted=True, props=['C18'], allocates=True,
-         note='(contracted under C19) snapshot of the instance; raises if the instance has no session',
-         params=dict(self=IM, instance_uuid=STR), returns=TRef('InstanceState'), raises={'Exception': lambda C: True})
+GIS_LENIENT = contract('InstanceManager._get_instance_state', trusted=True, props=['C18', 'C16'], allocates=True,
+         note='(contracted under C19) a fresh snapshot of THAT instance; raises if the id is unknown',
+         params=dict(self=IM, instance_uuid=STR), returns=TRef('InstanceState'), raises={'Exception': lambda C: True},
+         ensures=lambda C: And(C.result != NULL, C.fresh(C.result), C.result.instance_id == C.instance_uuid))
 
 
 def srv_valid(C):
@@ -209,6 +211,47 @@ Ctx.now_view = _now_view
 HANDLER_MODS = RESP_FIELDS + ['InstanceManager._instances', 'bptk.session_state', '$now']
 
 
+def _others(C, t1, t0, u):
+    """(a) of C16: the entry of every other id is as it was, or it was swept because ITS timeout had elapsed"""
+    c1 = C.g('now')
+    return [FA('str', lambda k: Implies(And(t1.has(k), k != u), And(t0.has(k), t1.raw(k) == t0.raw(k)))),
+            FA('str', lambda k: Implies(And(t0.has(k), k != u, Not(t1.has(k))), c1 >= expiry(t0, k)))]
+
+
+def isolated(C):
+    """C16 in frame form, for a handler addressed to instance_uuid: the other ids keep their entries (or time out on
+    their own), no bptk object other than the addressed one changes its session, ids still own different objects"""
+    im1, im0 = C.self._instance_manager, C.old.self._instance_manager
+    t1, t0 = im1._instances, im0._instances
+    u = C.instance_uuid
+    ss1, ss0 = C.st.heap_arr_cf('bptk', 'session_state'), C.old_st.heap_arr_cf('bptk', 'session_state')
+    own = t0[u]['instance'].z
+    return And(*(_others(C, t1, t0, u) + [
+        FA('ref', lambda r: Implies(And(z3.Select(C.old_st.alloc, r), Or(Not(t0.has(u)), r != own)), ss1[r] == ss0[r])),
+        wf_im(im1)]))
+
+
+def isolated_new(C):
+    """C16 for the handlers that create instances: every existing id keeps its entry (or times out on its own), no
+    existing bptk object changes its session, and the new ids own fresh objects different from each other (wf_im)"""
+    im1, im0 = C.self._instance_manager, C.old.self._instance_manager
+    t1, t0 = im1._instances, im0._instances
+    c1 = C.g('now')
+    ss1, ss0 = C.st.heap_arr_cf('bptk', 'session_state'), C.old_st.heap_arr_cf('bptk', 'session_state')
+    return And(FA('str', lambda k: Implies(And(t1.has(k), t0.has(k)), t1.raw(k) == t0.raw(k))),
+               FA('str', lambda k: Implies(And(t0.has(k), Not(t1.has(k))), c1 >= expiry(t0, k))),
+               FA('str', lambda k: Implies(And(t1.has(k), Not(t0.has(k))), Not(z3.Select(C.old_st.alloc, t1[k]['instance'].z)))),
+               FA('ref', lambda r: Implies(z3.Select(C.old_st.alloc, r), ss1[r] == ss0[r])),
+               wf_im(im1))
+
+
+def saved_own(C):
+    """with an external state adapter, a successful stepping request hands exactly one snapshot to the adapter, and it is
+    the snapshot of the addressed instance (C16: no cross-talk through the adapter; C20: state rewritten after every request)"""
+    return Implies(And(C.self._external_state_adapter != NULL, C.result.status == 200),
+                   And(C.g('saves') == C.old.g('saves') + 1, C.g('saved_obj').instance_id == C.instance_uuid))
+
+
 def refused_when_locked(C):
     t0 = C.old.self._instance_manager._instances
     b = the_instance(C)
@@ -227,28 +270,30 @@ def run_steps_inv(C):
                Implies(t0.has(u), And(I == t0[u]['instance'], Not(locked(C.old_view(I))))),
                # the lock is held (an instance without session cannot be locked; lock()/unlock() are no-ops then)
                locked(C.now_view(I)) == Not(C.now_view(I).session_state.is_none),
-               C.v.result.len == C.k, C.g('steps_run') == C.old.g('steps_run') + C.k)
+               C.v.result.len == C.k, C.g('steps_run') == C.old.g('steps_run') + C.k,
+               isolated(C))
 
 
 def srv_valid_now(C):
     return And(REQ != NULL, z3.Select(C.st.alloc, REQ))
 
 
-c = contract('BptkServer._run_steps_resource', file=F, props=['C18'], ghost=GH, allocates=True,
+c = contract('BptkServer._run_steps_resource', file=F, props=['C18', 'C16'], ghost=GH, allocates=True,
              params=dict(self=SRV, instance_uuid=STR), returns=RESP, locals=dict(result=TList(ANY)),
              requires=srv_valid,
              ensures=lambda C: And(lock_neutral(C), refused_when_locked(C),
                                    # the session advanced by exactly the number of steps returned
-                                   Implies(C.result.status == 200, C.g('steps_run') - C.old.g('steps_run') >= 0)),
-             raises={'Exception': lambda C: True}, exc_ensures={'Exception': lock_neutral},
+                                   Implies(C.result.status == 200, C.g('steps_run') - C.old.g('steps_run') >= 0),
+                                   isolated(C), saved_own(C)),
+             raises={'Exception': lambda C: True}, exc_ensures={'Exception': lambda C: And(lock_neutral(C), isolated(C))},
              loops={0: run_steps_inv}, modifies=HANDLER_MODS, ghost_mods=['bptk.g_destroyed', '$steps_run'])
 c.globals = SRV_GLOBALS
 
-c = contract('BptkServer._run_step_resource', file=F, props=['C18'], ghost=GH, allocates=True,
+c = contract('BptkServer._run_step_resource', file=F, props=['C18', 'C16'], ghost=GH, allocates=True,
              params=dict(self=SRV, instance_uuid=STR), returns=RESP, requires=srv_valid,
              ensures=lambda C: And(lock_neutral(C), refused_when_locked(C),
-                                   C.g('steps_run') <= C.old.g('steps_run') + 1),
-             raises={'Exception': lambda C: True}, exc_ensures={'Exception': lock_neutral},
+                                   C.g('steps_run') <= C.old.g('steps_run') + 1, isolated(C), saved_own(C)),
+             raises={'Exception': lambda C: True}, exc_ensures={'Exception': lambda C: And(lock_neutral(C), isolated(C))},
              modifies=HANDLER_MODS, ghost_mods=['bptk.g_destroyed', '$steps_run'])
 c.globals = SRV_GLOBALS
 
@@ -264,11 +309,17 @@ def streamer_exit(C):
     return Not(locked(C.now_view(C.instance)))
 
 
-c = contract('BptkServer._stream_steps_resource.streamer', file=F, props=['C18'], ghost=GH, allocates=True,
+def streamer_others(C):
+    """C16: the generator steps the instance captured by the closure and no other"""
+    ss1, ss0 = C.st.heap_arr_cf('bptk', 'session_state'), C.old_st.heap_arr_cf('bptk', 'session_state')
+    return FA('ref', lambda r: Implies(r != C.instance.z, ss1[r] == ss0[r]))
+
+
+c = contract('BptkServer._stream_steps_resource.streamer', file=F, props=['C18', 'C16'], ghost=GH, allocates=True,
              params={}, requires=lambda C: And(streamer_frame(C), Not(locked(C.instance)), REQ != NULL),
-             ensures=streamer_exit,
-             raises={'BaseException': lambda C: True}, exc_ensures={'BaseException': streamer_exit},
-             loops={0: lambda C: And(locked(C.now_view(C.instance)), streamer_frame(C))},
+             ensures=lambda C: And(streamer_exit(C), streamer_others(C)),
+             raises={'BaseException': lambda C: True}, exc_ensures={'BaseException': lambda C: And(streamer_exit(C), streamer_others(C))},
+             loops={0: lambda C: And(locked(C.now_view(C.instance)), streamer_frame(C), streamer_others(C))},
              modifies=['bptk.session_state', '$yields'], ghost_mods=['$steps_run'])
 c.closure = {'self': SRV, 'instance': B, 'is_json': BOOL, 'content': CONTENT, 'instance_uuid': STR}
 c.globals = SRV_GLOBALS
